@@ -10,7 +10,7 @@ import (
 )
 
 func init() {
-	register("ADP", []string{"ADP-1", "ADP-2", "ADP-3", "ADP-4", "ADP-5", "ADP-6", "ADP-7", "ADP-8"}, (*Ctx).adp)
+	register("ADP", []string{"ADP-1", "ADP-2", "ADP-3", "ADP-4", "ADP-5", "ADP-6", "ADP-7", "ADP-8", "ADP-10"}, (*Ctx).adp)
 }
 
 func isAppendTo(e *pathx.Event, elem string) bool {
@@ -202,7 +202,7 @@ func (c *Ctx) adp(which map[string]bool) {
 		mx.done(2, "updated exactly when the decoded number is greater")
 	}
 
-	if which["ADP-2"] || which["ADP-3"] {
+	if which["ADP-2"] || which["ADP-3"] || which["ADP-10"] {
 		corrupt := c.acc("ADP-2", ad, "corrupt-record⇒deleted,warned,not-adopted")
 		each := c.acc("ADP-3", ad, "every-listed-key-is-integrity-checked(except-clientIDKey)")
 		marker := c.acc("ADP-2", ad, "inbound-marker-not-filed-as-outbound")
@@ -303,6 +303,36 @@ func (c *Ctx) adp(which map[string]bool) {
 		}
 		if which["ADP-3"] {
 			each.done(3, "every iteration either is the client identifier key or loads and decodes the record")
+		}
+		if which["ADP-10"] {
+			// C16 counts the client identifier record among what may be damaged:
+			// adoption is the only place that can warn about it, and a client whose
+			// identifier record does not decode fails every connect before the dial
+			cidck := c.acc("ADP-10", ad, "client-identifier-record-integrity-checked-at-adoption")
+			for _, p := range paths {
+				if p.End != pathx.KLoopBack || p.Events[len(p.Events)-1].Target != recHeader {
+					continue
+				}
+				isID := false
+				for _, cm := range assumed(p, 0, -1) {
+					if cm.Op == token.EQL && isK(cm.Y, c.constInt("clientIDKey")) {
+						if _, isAnd := stripConv(cm.X).(*ssa.BinOp); !isAnd {
+							isID = true
+						}
+					}
+				}
+				if !isID {
+					continue
+				}
+				il := p.Index(0, func(e *pathx.Event) bool { return persistenceOp(e) == "Load" })
+				id := p.Index(0, func(e *pathx.Event) bool { return isCallTo(e, dec) })
+				if il >= 0 && id > il {
+					cidck.pass()
+				} else {
+					cidck.fail(p, len(p.Events)-1, "the client identifier record is passed over at adoption without Load and decodeValue: when it is damaged AdoptSession reports nothing, and the adopted client fails every connect attempt before it even dials (record 0x0 unavailable)")
+				}
+			}
+			cidck.done(1, "the identifier record is decoded like every other record")
 		}
 	}
 
